@@ -1,14 +1,5 @@
 -- Root of the library: everything below is built by `lake build`.
 import FractopoModel.Basic.PyPrelude
-import FractopoModel.Generated.BranchIdentity
-import FractopoModel.Generated.DegreeToClass
-import FractopoModel.Generated.LengthFilters
-import FractopoModel.Generated.SnapConstants
-import FractopoModel.Generated.BoundaryWeight
-import FractopoModel.Generated.ParamTable
-import FractopoModel.Generated.TopologyParameters
-import FractopoModel.Generated.IsSet
-import FractopoModel.Generated.DetermineSet
-import FractopoModel.Generated.AzimuthPost
-import FractopoModel.Generated.IsAzimuthClose
-import FractopoModel.Generated.DefaultAzimuthSets
+import FractopoModel.Basic.Geom
+import FractopoModel.Basic.Wire
+import FractopoModel.Props.C05
